@@ -158,6 +158,12 @@ type c03Cfg struct {
 }
 
 func c03B(b bool) string { return strconv.FormatBool(b) }
+func c03Bit(b bool) int {
+	if b {
+		return 1
+	}
+	return 0
+}
 
 func (c c03Cfg) Label() string {
 	pk := c.PKCE
@@ -235,7 +241,7 @@ func c03Start(inst *c03Inst, b *vfBrowser, bi int, kind, id string) (*c03Login, 
 	case "protected":
 		target = fmt.Sprintf("/app/p%d/page?item=%d", n, n)
 		resp := b.Get(inst.P, target)
-		if resp.Code == 200 && len(inst.P.W.Up.FindHit("")) == 0 {
+		if resp.Code == 200 {
 			// the browser already holds a session (an earlier login of the history completed): the protected URL is simply
 			// served, so this login is started explicitly instead
 			return c03Start(inst, b, bi, "start", id)
@@ -637,6 +643,8 @@ func (cs *c03Case) cookieVariants(X, Y, Y2 *c03Login, Zs []*c03Login, S *c03Logi
 		c03Named{Name: "own-signature-head-changed", Class: "tampered-signature", Cks: [][2]string{{X.CookieName, c03TamperSig(X.CookieValue, 0, 10)}}},
 		c03Named{Name: "own-signature-tail-changed", Class: "tampered-signature", Cks: [][2]string{{X.CookieName, c03TamperSig(X.CookieValue, 30, 42)}}},
 		c03Named{Name: "own-value-last-block-changed", Class: "tampered-value", Cks: [][2]string{{X.CookieName, c03TamperTail(X.CookieValue)}}},
+		c03Named{Name: "own-signature-not-base64", Class: "tampered-signature", Cks: [][2]string{{X.CookieName, X.CookieValue[:strings.LastIndexByte(X.CookieValue, '|')+1] + "!!!!" + X.CookieValue[strings.LastIndexByte(X.CookieValue, '|')+5:]}}},
+		c03Named{Name: "own-value-with-signature-of-other-login", Class: "tampered-signature", Cks: [][2]string{{X.CookieName, X.CookieValue[:strings.LastIndexByte(X.CookieValue, '|')+1] + Y.CookieValue[strings.LastIndexByte(Y.CookieValue, '|')+1:]}}},
 		c03Named{Name: "own-signature-dropped", Class: "tampered-signature", Cks: [][2]string{{X.CookieName, X.CookieValue[:strings.LastIndexByte(X.CookieValue, '|')+1]}}},
 		c03Named{Name: "own-first-field-only", Class: "tampered-signature", Cks: [][2]string{{X.CookieName, strings.SplitN(X.CookieValue, "|", 2)[0]}}},
 		c03Named{Name: "own+other-same-browser", Class: "own+other", Cks: [][2]string{own, ck(Y)}},
@@ -741,7 +749,7 @@ func (cs *c03Case) attempt(R *c03Inst, X *c03Login, sv, cv c03Named, part string
 	})
 }
 
-func c03Configs(thorough bool) []c03Cfg {
+func c03Configs(thorough bool, seed int64) []c03Cfg {
 	var out []c03Cfg
 	k := 0
 	for _, pr := range []bool{false, true} {
@@ -753,8 +761,8 @@ func c03Configs(thorough bool) []c03Cfg {
 				if !thorough && bind.pk == "S256" && bind.skip {
 					continue
 				}
-				if !thorough && bind.pk == "" && !bind.skip && pr == en {
-					continue // quick tier: PKCE-less with nonce checking only for two of the four (per-request, encode-state) combinations
+				if !thorough && bind.pk == "" && !bind.skip && (c03Bit(pr)*2+c03Bit(en)) != int(seed&3) {
+					continue // quick tier: PKCE-less with nonce checking for one (seed-chosen) of the four (per-request, encode-state) combinations
 				}
 				stores := []string{"cookie", "redis"}
 				if !thorough {
@@ -782,7 +790,7 @@ func c03Configs(thorough bool) []c03Cfg {
 func TestVerif_C03(t *testing.T) {
 	run := vfNewRun(t, "C03", "exploration")
 	run.SetRule("Part A: per configuration 2 browsers x 3 interleaved logins (start?rd= / protected URL) on the main instance plus logins on a sibling with another cookie secret and on a sibling with the opposite --encode-state; " +
-		"every login X x ~38 presented-cookie sets (own, other login, other browser, tampered value/timestamp/signature, re-signed/re-encrypted with the sibling secret, absent, own+other in both orders, values under foreign names, duplicate names) x 26 state variants " +
+		"every login X x ~40 presented-cookie sets (own, other login, other browser, tampered value/timestamp/signature, re-signed/re-encrypted with the sibling secret, absent, own+other in both orders, values under foreign names, duplicate names) x 26 state variants " +
 		"(verbatim, redirect changed, nonce of another login, truncated, empty, nonce prefix/extension/changed char, encoding mismatch), received by the main and both sibling instances. " +
 		"Part B: real cookie jars, 1-3 logins per browser, all completion permutations and seeded random start/complete/replay walks. " +
 		"cell = (csrf-per-request, encode-state, PKCE, skip-nonce, receiver, cookie class, state class, expected) ; non-trivial = every callback (each needs a started login)")
@@ -791,14 +799,15 @@ func TestVerif_C03(t *testing.T) {
 		"duplicate cookies of one name are judged in the safety direction only")
 	w := vfNewWorld(t)
 	defer w.Close()
-	for ci, cfg := range c03Configs(run.Env.Thorough()) {
+	for ci, cfg := range c03Configs(run.Env.Thorough(), run.Env.Seed) {
 		c03RunConfig(run, w, cfg, ci)
 	}
+	run.RaceCheck("") // races are not this property's business: reports are kept as NOTE lines for diagnosis
 	if n := run.Counter("rig_failures"); n > 0 {
 		fmt.Printf("INCONCLUSIVE property=C03 reason=%d rig failures (see NOTE lines)\n", n)
 		t.Fail()
 	}
-	run.Finish(int64(run.Env.Pick(12000, 100000)), run.Env.Pick(1300, 2500))
+	run.Finish(int64(run.Env.Pick(10000, 100000)), run.Env.Pick(1200, 2500))
 }
 
 func c03RunConfig(run *vfRun, w *vfWorld, cfg c03Cfg, ci int) {
@@ -892,7 +901,12 @@ func c03RunConfig(run *vfRun, w *vfWorld, cfg c03Cfg, ci int) {
 			// replica (same secret) reads the state in its own encoding
 			for _, sv := range svs {
 				switch sv.Class {
-				case "verbatim", "redirect-changed", "encoding-mismatch", "other-login-nonce":
+				case "redirect-changed", "other-login-nonce":
+					if !run.Env.Thorough() {
+						continue
+					}
+					fallthrough
+				case "verbatim", "encoding-mismatch":
 					for _, cv := range cvs {
 						switch cv.Class {
 						case "own", "own+other", "other+own", "absent", "foreign-secret":
